@@ -19,7 +19,7 @@ def NoTask (atts : List Attempt) : Prop :=
 
 /-- some seen attempt still waits for a result -/
 def SomePending (atts : List Attempt) : Prop :=
-  ∃ x ∈ atts, x.seen = true ∧ x.slots.any Slot.unresolved = true
+  ∃ x ∈ atts, x.seen = true ∧ x.waits = true
 
 /-- what every operation keeps of an attempt: identity, position in the forest; `terminated` and `joined` only get set -/
 def Keeps (x x' : Attempt) : Prop :=
@@ -188,7 +188,7 @@ def cpAtts (q : Quirks) (s : Proto) : List Attempt :=
   s.atts.map (fun x => if visited (cpDead q s.atts) (cpHasTerm s) s.ended.isSome x then { x with slots := x.slots.map Slot.cancel } else x)
 
 def cpPending (q : Quirks) (s : Proto) : Bool :=
-  (cpAtts q s).any (fun x => visited (cpDead q s.atts) (cpHasTerm s) s.ended.isSome x && x.slots.any Slot.unresolved)
+  (cpAtts q s).any (fun x => visited (cpDead q s.atts) (cpHasTerm s) s.ended.isSome x && x.waits)
 
 theorem cp_state (q : Quirks) (s : Proto) :
     (checkPending q s).1 = if s.ended.isSome && !cpPending q s then { s with atts := [], hasMeta := false }
@@ -321,7 +321,7 @@ theorem bub_forall (P : Attempt → Prop)
 
 /-- an attempt whose results entry does not exist yet has nothing but PENDING slots; one whose entry exists has no
 cancellable slot -/
-def UnseenOK (x : Attempt) : Prop := x.seen = false → ∀ sl ∈ x.slots, sl = Slot.pending
+def UnseenOK (x : Attempt) : Prop := x.seen = false → ∀ sl ∈ x.slots, sl = Slot.pending ∨ sl = Slot.unlaunched
 def SlotsOK (x : Attempt) : Prop := x.seen = true → ∀ sl ∈ x.slots, sl.cancellable = false
 
 def UnseenPending (atts : List Attempt) : Prop := ∀ x ∈ atts, UnseenOK x
@@ -330,6 +330,21 @@ theorem noTask_iff (atts : List Attempt) : NoTask atts ↔ ∀ x ∈ atts, Slots
 
 theorem setSlot_unseenOK (i : Nat) (f : Slot → Slot) (x : Attempt) (h : UnseenOK x) : UnseenOK (setSlot i f x) := by
   unfold setSlot
+  split
+  · intro hs; simp_all
+  · exact h
+
+theorem setRange_keeps (lo hi : Nat) (f : Slot → Slot) (x : Attempt) : Keeps x (setRange lo hi f x) := by
+  unfold setRange
+  split
+  · exact ⟨rfl, rfl, id, id⟩
+  · exact Keeps.refl x
+
+theorem setRange_seen (lo hi : Nat) (f : Slot → Slot) (x : Attempt) : (setRange lo hi f x).seen = x.seen := by
+  unfold setRange; split <;> rfl
+
+theorem setRange_unseenOK (lo hi : Nat) (f : Slot → Slot) (x : Attempt) (h : UnseenOK x) : UnseenOK (setRange lo hi f x) := by
+  unfold setRange
   split
   · intro hs; simp_all
   · exact h
@@ -351,7 +366,7 @@ theorem bub_noTask (q : Quirks) (e : Bool) (atts : List Attempt) (a i : Nat) (r 
     intro _ sl hsl
     rcases mem_modify _ _ _ _ hsl with hm | ⟨_, _, rfl⟩
     · cases hseen : x.seen
-      · rw [hu hseen sl hm]; rfl
+      · rcases hu hseen sl hm with h | h <;> rw [h] <;> rfl
       · exact hs hseen sl hm
     · rfl
   · intro x _ hx; exact hx
@@ -746,7 +761,7 @@ theorem getElem?_mem' {α : Type} (l : List α) (i : Nat) (x : α) (h : l[i]? = 
 /-- the repaired protocol keeps its invariant -/
 theorem inv_step (s : Proto) (inp : Inp) (h : Inv s) : Inv (step Quirks.none s inp).1 := by
   cases inp with
-  | launch a n par k =>
+  | launch a n hi par k =>
     simp only [step]
     split
     · exact h
@@ -765,7 +780,10 @@ theorem inv_step (s : Proto) (inp : Inp) (h : Inv s) : Inv (step Quirks.none s i
           · intro x hx
             rcases List.mem_cons.mp hx with rfl | hx
             · intro _ sl hsl
-              exact (List.mem_replicate.mp hsl).2
+              obtain ⟨j, _, rfl⟩ := List.mem_map.mp hsl
+              split
+              · exact Or.inl rfl
+              · exact Or.inr rfl
             · exact h.unseen x hx
       | some pi =>
         obtain ⟨p, i⟩ := pi
@@ -793,10 +811,41 @@ theorem inv_step (s : Proto) (inp : Inp) (h : Inv s) : Inv (step Quirks.none s i
           · intro x hx
             rcases List.mem_cons.mp hx with rfl | hx
             · intro _ sl hsl
-              exact (List.mem_replicate.mp hsl).2
+              obtain ⟨j, _, rfl⟩ := List.mem_map.mp hsl
+              split
+              · exact Or.inl rfl
+              · exact Or.inr rfl
             · exact hi.unseen x hx
         | dropped => exact hi
         | lost => exact hi
+  | batch a lo hi launch =>
+    simp only [step]
+    have hi' := lookup_inv s a lo h
+    have he := lookup_ended Quirks.none s a lo
+    rcases hl : lookup Quirks.none s a lo with ⟨v, s1, outs⟩
+    rw [hl] at hi' he
+    simp only at hi' he
+    cases v with
+    | accept =>
+      simp only
+      have hne : s.ended.isSome = false := by
+        cases hq : s.ended.isSome
+        · rfl
+        · have := lookup_none_ended s a lo hq
+          rw [hl] at this
+          simp at this
+      split
+      · refine inv_running _ (by rw [he]; exact hne) ?_ ?_
+        · intro hm; exact upd_seen_forall _ _ _ (setRange_seen _ _ _) (hi'.noMeta hm)
+        · exact upd_unseen _ _ _ (fun x hx => setRange_unseenOK _ _ _ _ hx) hi'.unseen
+      · exact hi'
+    | dropped =>
+      simp only
+      split
+      · rename_i hm
+        exact inv_cp _ _ hm (upd_unseen _ _ _ (fun x hx => setRange_unseenOK _ _ _ _ hx) hi'.unseen)
+      · exact hi'
+    | lost => exact hi'
   | event a i k =>
     simp only [step, viaLookup]
     have hi := lookup_inv s a i h
@@ -916,7 +965,7 @@ theorem continue_ended_mono (q : Quirks) (s : Proto) (a i : Nat) (k : Kont) (h :
 theorem step_ended_mono (q : Quirks) (s : Proto) (inp : Inp) (h : s.ended.isSome = true) :
     (step q s inp).1.ended.isSome = true := by
   cases inp with
-  | launch a n par k =>
+  | launch a n hi par k =>
     simp only [step]
     split
     · exact h
@@ -930,6 +979,18 @@ theorem step_ended_mono (q : Quirks) (s : Proto) (inp : Inp) (h : s.ended.isSome
         rw [hl] at he
         simp only at he
         cases v <;> simp only <;> rw [he] <;> exact h
+  | batch a lo hi launch =>
+    simp only [step]
+    have he := lookup_ended q s a lo
+    rcases hl : lookup q s a lo with ⟨v, s1, outs⟩
+    rw [hl] at he
+    simp only at he
+    cases v <;> simp only
+    · split <;> (rw [he]; exact h)
+    · split
+      · rw [cp_ended]; rw [he]; exact h
+      · rw [he]; exact h
+    · rw [he]; exact h
   | event a i k =>
     simp only [step, viaLookup]
     have he := lookup_ended q s a i
@@ -1023,7 +1084,7 @@ theorem quiet_filter_nil (os : List Out) (h : ∀ o ∈ os, o.quiet = true) : os
 theorem step_quiet_after_end (s : Proto) (inp : Inp) (h : Inv s) (he : s.ended.isSome = true) :
     ∀ o ∈ (step Quirks.none s inp).2, o.quiet = true := by
   cases inp with
-  | launch a n par k =>
+  | launch a n hi par k =>
     simp only [step]
     split
     · intro o ho; simp at ho; subst ho; rfl
@@ -1042,6 +1103,23 @@ theorem step_quiet_after_end (s : Proto) (inp : Inp) (h : Inv s) (he : s.ended.i
         | accept => simp at hn
         | dropped => exact hq
         | lost => exact hq
+  | batch a lo hi launch =>
+    simp only [step]
+    have hq := lookup_quiet Quirks.none s a lo
+    have hn := lookup_none_ended s a lo he
+    rcases hl : lookup Quirks.none s a lo with ⟨v, s1, outs⟩
+    rw [hl] at hq hn
+    cases v with
+    | accept => simp at hn
+    | dropped =>
+      simp only
+      split
+      · intro o ho
+        rcases List.mem_append.mp ho with ho | ho
+        · exact hq o ho
+        · exact cp_quiet _ _ o ho
+      · exact hq
+    | lost => exact hq
   | event a i k =>
     simp only [step, viaLookup]
     have hq := lookup_quiet Quirks.none s a i
@@ -1111,7 +1189,7 @@ theorem step_ends (s : Proto) (inp : Inp) :
     rw [quiet_not_end o (hq o ho)] at hoe
     cases hoe
   cases inp with
-  | launch a n par k =>
+  | launch a n hi par k =>
     simp only [step]
     split
     · exact quiet_case _ _ (by intro o ho; simp at ho; subst ho; rfl)
@@ -1131,6 +1209,23 @@ theorem step_ends (s : Proto) (inp : Inp) :
         | accept => simp [isEnd]
         | dropped => exact quiet_case _ _ hq
         | lost => exact quiet_case _ _ hq
+  | batch a lo hi launch =>
+    simp only [step]
+    have hq := lookup_quiet Quirks.none s a lo
+    rcases hl : lookup Quirks.none s a lo with ⟨v, s1, outs⟩
+    rw [hl] at hq
+    cases v with
+    | accept => simp [isEnd]
+    | dropped =>
+      simp only
+      split
+      · apply quiet_case
+        intro o ho
+        rcases List.mem_append.mp ho with ho | ho
+        · exact hq o ho
+        · exact cp_quiet _ _ o ho
+      · exact quiet_case _ _ hq
+    | lost => exact quiet_case _ _ hq
   | event a i k =>
     simp only [step, viaLookup]
     have hq := lookup_quiet Quirks.none s a i
@@ -1317,7 +1412,7 @@ inductive Evolves (s s' : Proto) : Prop where
 
 theorem step_evolves (q : Quirks) (s : Proto) (inp : Inp) : Evolves s (step q s inp).1 := by
   cases inp with
-  | launch a n par k =>
+  | launch a n hi par k =>
     simp only [step]
     split
     · exact .same (Same.rfl' s)
@@ -1339,6 +1434,24 @@ theorem step_evolves (q : Quirks) (s : Proto) (inp : Inp) : Evolves s (step q s 
         · rw [h] at hs ⊢; exact .same hs
         · rw [h]
           exact .more _ _ rfl (seenAtts_keeps s p) (by simpa using hlt) (by simp)
+  | batch a lo hi launch =>
+    simp only [step]
+    have hs := lookup_same q s a lo
+    rcases hl : lookup q s a lo with ⟨v, s1, outs⟩
+    rw [hl] at hs
+    cases v with
+    | accept =>
+      simp only
+      split
+      · exact .same (hs.trans' ⟨Nat.le_refl _, Or.inr (upd_keeps _ _ _ (setRange_keeps _ _ _))⟩)
+      · exact .same hs
+    | dropped =>
+      simp only
+      split
+      · exact .same (hs.trans' (Same.trans' (s1 := { s1 with atts := upd s1.atts a (setRange lo hi (fun sl => if sl == .unlaunched then .terminated else sl)) })
+          ⟨Nat.le_refl _, Or.inr (upd_keeps _ _ _ (setRange_keeps _ _ _))⟩ (cp_same _ _)))
+      · exact .same hs
+    | lost => exact .same hs
   | event a i k =>
     simp only [step, viaLookup]
     have hs := lookup_same q s a i
@@ -1660,7 +1773,7 @@ theorem step_walk (q : Quirks) (s : Proto) (inp : Inp) :
   have one : ∀ (st : Proto) (o : Out), o.simple = true → ∀ o' ∈ (st, [o]).2, o'.simple = true := by
     intro st o h o' ho'; simp at ho'; subst ho'; exact h
   cases inp with
-  | launch a n par k =>
+  | launch a n hi par k =>
     left
     simp only [step]
     split
@@ -1677,6 +1790,23 @@ theorem step_walk (q : Quirks) (s : Proto) (inp : Inp) :
         | accept => exact one _ _ rfl
         | dropped => exact hq
         | lost => exact hq
+  | batch a lo hi launch =>
+    left
+    simp only [step]
+    have hq := lookup_simple q s a lo
+    rcases hl : lookup q s a lo with ⟨v, s1, outs⟩
+    rw [hl] at hq
+    cases v with
+    | accept => exact one _ _ rfl
+    | dropped =>
+      simp only
+      split
+      · intro o ho
+        rcases List.mem_append.mp ho with ho | ho
+        · exact hq o ho
+        · exact cp_simple _ _ o ho
+      · exact hq
+    | lost => exact hq
   | event a i k =>
     simp only [step, viaLookup]
     have hq := lookup_simple q s a i
@@ -2431,7 +2561,7 @@ theorem ts_step (q : Quirks) (s : Proto) (inp : Inp) (h : TermSeen s.atts) : Ter
     · intro hh; rw [ht] at hh; cases hh
     · exact hl x hx
   cases inp with
-  | launch a n par k =>
+  | launch a n hi par k =>
     simp only [step]
     split
     · exact h
@@ -2447,6 +2577,17 @@ theorem ts_step (q : Quirks) (s : Proto) (inp : Inp) (h : TermSeen s.atts) : Ter
         | accept => exact hcons _ _ rfl hl
         | dropped => exact hl
         | lost => exact hl
+  | batch a lo hi launch =>
+    simp only [step]
+    have hl := ts_lookup q s a lo h
+    rcases hlk : lookup q s a lo with ⟨v, s1, outs⟩
+    rw [hlk] at hl
+    have hset : ∀ f, TermSeen (upd s1.atts a (setRange lo hi f)) := fun f =>
+      upd_forall TermSeenOK _ _ _ (fun x hx => by unfold setRange; split <;> exact hx) hl
+    cases v with
+    | accept => simp only; split; exact hset _; exact hl
+    | dropped => simp only; split; exact ts_cp q _ (hset _); exact hl
+    | lost => exact hl
   | event a i k =>
     simp only [step, viaLookup]
     have hl := ts_lookup q s a i h
